@@ -171,7 +171,10 @@ pub fn gaussian_tau(epsilon: f64, delta: f64, max_privacy_unit_groups: f64) -> f
     let scale = gaussian_noise(epsilon, delta, max_privacy_unit_groups.sqrt());
     // TODO: we want to overestimate tau
     // tau is never below 1: a group held by one privacy unit is not released without noise
-    1. + scale * dist
-        .inverse_cdf((1. - delta).powf(1. / max_privacy_unit_groups))
-        .max(0.)
+    let margin = scale
+        * dist
+            .inverse_cdf((1. - delta).powf(1. / max_privacy_unit_groups))
+            .max(0.);
+    // a zero scale times an infinite quantile is not a number: overestimate
+    1. + if margin.is_nan() { f64::MAX } else { margin }
 }
